@@ -24,5 +24,19 @@ i = s.index(head)
 j = s.index("\n", s.index("The names planned in", i))
 k = s.index("**C01** (", i)
 s = s[:k] + inv
+# the table of section 6.1 from the `fixed:` entries of known_findings.json
+kf = json.load(open(os.path.join(VERIF, "known_findings.json")))
+frows = []
+for e in kf["fixed"]:
+    m_ = re.match(r"fixed: property=(C\d+) (\w+) (.*)", e)
+    if m_:
+        frows.append((m_.group(1), m_.group(2), m_.group(3).replace("|", "/")))
+frows.sort(key=lambda r_: r_[0])
+fhead = "| property | `fix:` commit | what failed on the pinned tree |\n|---|---|---|\n"
+fi = s.index(fhead)
+fj = s.index("\n\n", fi)
+s = s[:fi] + fhead + "\n".join("| %s | %s | %s |" % r_ for r_ in frows) + s[fj:]
+s = re.sub(r"\(\d+ commits, table regenerated", "(%d commits, table regenerated" % len(frows), s)
 open(p, "w").write(s)
+print("fix rows:", len(frows))
 print("matrix rows:", len(rows), counts, "| theorems:", inv.count("\n* `"))
